@@ -1,1 +1,43 @@
-Require Import Gengo.Base.Str Gengo.Model.Comments.
+(* C05 — doc comments and their tags reach exactly the declaration they document (partial:
+   comment grouping, positions and Text() are go/parser's, taken as input). *)
+Require Import Gengo.Base.Str Gengo.Model.Comments Gengo.Proofs.CommentsProofs.
+
+(* a declaration is delivered exactly the lines of the (non-trailing) block that ends on the line
+   directly above it, unmodified *)
+Theorem C05_deliver_doc : forall gs d g, distinct_ends gs -> In g gs -> documents g (d_line d) ->
+  fst (deliver (index gs) d) = g_text g.
+Proof. exact deliver_doc. Qed.
+Print Assumptions C05_deliver_doc.
+
+(* a declaration with no such block is delivered none *)
+Theorem C05_deliver_none : forall gs d,
+  (forall g, In g gs -> ~ documents g (d_line d)) -> fst (deliver (index gs) d) = [].
+Proof. exact deliver_none. Qed.
+Print Assumptions C05_deliver_none.
+
+(* whatever is delivered is a non-trailing group that ends exactly on the looked-up line:
+   a trailing comment is never delivered to the declaration that follows it *)
+Theorem C05_trailing_never_delivered : forall gs l g,
+  ilookup l (index gs) = Some g -> g_trailing g = false /\ g_end g = l /\ In g gs.
+Proof. exact trailing_never_indexed. Qed.
+Print Assumptions C05_trailing_never_delivered.
+
+(* the second-closest block is looked up two lines above the doc block, or above the declaration *)
+Theorem C05_second_closest : forall gs d, d_second d = true ->
+  snd (deliver (index gs) d) =
+  text_of (match prior (index gs) (d_line d) 1 with
+           | Some doc => prior (index gs) (g_start doc) 2
+           | None => prior (index gs) (d_line d) 2 end).
+Proof. exact deliver_second. Qed.
+Print Assumptions C05_second_closest.
+
+Theorem C05_package_comments : forall gs, package_comments gs = flat_map g_text gs.
+Proof. exact package_comments_spec. Qed.
+Print Assumptions C05_package_comments.
+
+Example C05_example :
+  let gs := [ {| g_start := 1; g_end := 1; g_trailing := true; g_text := [s "trailing"] |};
+              {| g_start := 3; g_end := 3; g_trailing := false; g_text := [s "doc"] |} ] in
+  deliver (index gs) {| d_key := s "type:X"; d_line := 4; d_second := true |} = ([s "doc"], []) /\
+  deliver (index gs) {| d_key := s "type:Y"; d_line := 2; d_second := true |} = ([], []).
+Proof. vm_compute. auto. Qed.
